@@ -1,187 +1,264 @@
-(* C09 - what the repaired protocol lets through: a process that runs alone acquires a free stack,
-   readers join readers, a child re-enters the lock of its EUPS_LOCK_PID ancestor.
-   The runs are followed one file-system call at a time with the one-step lemmas below; nothing here
-   asks Coq to normalise a whole run of [next] at once. *)
-From Eupsv Require Import Base.Base Model.Lock Proofs.LockLib Proofs.Lock.
+(* C09 - what the repaired protocol lets through, for processes that lock a single stack: a process that
+   runs alone acquires a free stack, readers join readers, a child re-enters the lock of its EUPS_LOCK_PID
+   ancestor.  The runs are followed one file-system call at a time with the one-step lemmas below; nothing
+   here asks Coq to normalise a whole run of [next] at once. *)
+From Eupsv Require Import Base.Base Model.Lock Proofs.LockLib Proofs.LockNext Proofs.LockNext2 Proofs.Lock.
 From Coq Require Import Lia.
 
-(* n consecutive steps of process p, seen on the part of the state they can touch *)
-Fixpoint solo (fx : bool) (cfg : config) (p : pid) (c : choice) (n : nat)
-  (st : bool * list pid * (loc * nat)) : bool * list pid * (loc * nat) :=
+(* n consecutive steps of process p on stack k, seen on the part of the state they can touch *)
+Fixpoint solo (fx fr : bool) (cfg : config) (p : pid) (c : choice) (n : nat)
+  (st : bool * list pid * local) : bool * list pid * local :=
   match n with
   | 0 => st
-  | S k => match st with (d, fs, (l, i)) => solo fx cfg p c k (next fx cfg d fs l i p c) end
+  | S m => match st with (d, fs, lo) => solo fx fr cfg p c m (next fx fr cfg d fs lo p c) end
   end.
 
-Lemma solo_S fx cfg p c k d fs l i :
-  solo fx cfg p c (S k) (d, fs, (l, i)) = solo fx cfg p c k (next fx cfg d fs l i p c).
+(* ... provided each of them is about stack k *)
+Fixpoint solo_on (fx fr : bool) (cfg : config) (p : pid) (k : stack) (c : choice) (n : nat)
+  (st : bool * list pid * local) : Prop :=
+  match n with
+  | 0 => True
+  | S m => match st with
+           | (d, fs, lo) => nth_error (path_of cfg p) (widx lo) = Some k /\
+                            solo_on fx fr cfg p k c m (next fx fr cfg d fs lo p c)
+           end
+  end.
+
+Lemma solo_S fx fr cfg p c m d fs lo :
+  solo fx fr cfg p c (S m) (d, fs, lo) = solo fx fr cfg p c m (next fx fr cfg d fs lo p c).
 Proof. reflexivity. Qed.
 
-Lemma solo_0 fx cfg p c st : solo fx cfg p c 0 st = st.
+Lemma solo_0 fx fr cfg p c st : solo fx fr cfg p c 0 st = st.
 Proof. reflexivity. Qed.
 
-Lemma run_solo fx cfg p c n : forall s,
-  let r := solo fx cfg p c n (dir s, files s, (pc s p, tries s p)) in
-  let s' := run_gen fx cfg s (repeat (p, c) n) in
-  dir s' = fst (fst r) /\ files s' = snd (fst r) /\ pc s' p = fst (snd r) /\ tries s' p = snd (snd r) /\
-  (forall q, q <> p -> pc s' q = pc s q).
+Lemma solo_on_S fx fr cfg p k c m d fs lo :
+  nth_error (path_of cfg p) (widx lo) = Some k -> solo_on fx fr cfg p k c m (next fx fr cfg d fs lo p c) ->
+  solo_on fx fr cfg p k c (S m) (d, fs, lo).
+Proof. intros A B. split; assumption. Qed.
+
+Lemma step_on fx fr cfg s p c k d' fs' lo' :
+  nth_error (path_of cfg p) (widx (local_of s p)) = Some k ->
+  next fx fr cfg (dir s k) (files s k) (local_of s p) p c = (d', fs', lo') ->
+  step_gen fx fr cfg s p c = put (write s k d' fs') p lo'.
+Proof. intros W N. unfold step_gen. now rewrite W, N. Qed.
+
+Lemma run_solo fx fr cfg p c k n : forall s,
+  solo_on fx fr cfg p k c n (dir s k, files s k, local_of s p) ->
+  let r := solo fx fr cfg p c n (dir s k, files s k, local_of s p) in
+  let s' := run_gen fx fr cfg s (repeat (p, c) n) in
+  dir s' k = fst (fst r) /\ files s' k = snd (fst r) /\ local_of s' p = snd r /\
+  (forall q, q <> p -> local_of s' q = local_of s q) /\
+  (forall k', k' <> k -> dir s' k' = dir s k' /\ files s' k' = files s k').
 Proof.
-  induction n as [|k IH]; intro s.
-  - cbn. auto.
-  - cbv zeta. rewrite solo_S. change (repeat (p, c) (S k)) with ((p, c) :: repeat (p, c) k).
-    change (run_gen fx cfg s ((p, c) :: repeat (p, c) k))
-      with (run_gen fx cfg (step_gen fx cfg s p c) (repeat (p, c) k)).
-    destruct (step_fields fx cfg s p c) as (d' & fs' & l' & i' & N & E).
-    specialize (IH (step_gen fx cfg s p c)). cbv zeta in IH. rewrite N. rewrite E in IH |- *.
-    cbn [dir files pc tries] in IH. rewrite !upd_same in IH. destruct IH as (A & B & C & D & F).
-    repeat split; try assumption.
-    intros q Hq. rewrite (F q Hq). now apply upd_other.
+  induction n as [|m IH]; intros s On.
+  - cbn. repeat split; auto.
+  - cbv zeta. rewrite solo_S. change (repeat (p, c) (S m)) with ((p, c) :: repeat (p, c) m).
+    change (run_gen fx fr cfg s ((p, c) :: repeat (p, c) m))
+      with (run_gen fx fr cfg (step_gen fx fr cfg s p c) (repeat (p, c) m)).
+    destruct On as [W On].
+    destruct (next fx fr cfg (dir s k) (files s k) (local_of s p) p c) as [[d' fs'] lo'] eqn:N.
+    rewrite (step_on fx fr cfg s p c k d' fs' lo' W N).
+    specialize (IH (put (write s k d' fs') p lo')). cbv zeta in IH.
+    rewrite dir_put, files_put, dir_write_same, files_write_same, local_put_same in IH.
+    destruct (IH On) as (A & B & C & D & F). repeat split; try assumption.
+    + intros q Hq. rewrite (D q Hq). now rewrite local_put_other, local_write.
+    + destruct (F k' H) as [F1 _]. rewrite F1, dir_put. now apply dir_write_other.
+    + destruct (F k' H) as [_ F2]. rewrite F2, files_put. now apply files_write_other.
 Qed.
 
 (* the form in which it is used: once the local run is known, so is the global one *)
-Lemma run_solo_eq fx cfg p c n s d' fs' l' i' :
-  solo fx cfg p c n (dir s, files s, (pc s p, tries s p)) = (d', fs', (l', i')) ->
-  dir (run_gen fx cfg s (repeat (p, c) n)) = d' /\
-  files (run_gen fx cfg s (repeat (p, c) n)) = fs' /\
-  pc (run_gen fx cfg s (repeat (p, c) n)) p = l' /\
-  (forall q, q <> p -> pc (run_gen fx cfg s (repeat (p, c) n)) q = pc s q).
+Lemma run_solo_eq fx fr cfg p c k n s d' fs' lo' :
+  solo_on fx fr cfg p k c n (dir s k, files s k, local_of s p) ->
+  solo fx fr cfg p c n (dir s k, files s k, local_of s p) = (d', fs', lo') ->
+  let s' := run_gen fx fr cfg s (repeat (p, c) n) in
+  dir s' k = d' /\ files s' k = fs' /\ pc s' p = lpc lo' /\
+  (forall q, q <> p -> local_of s' q = local_of s q) /\
+  (forall q, q <> p -> pc s' q = pc s q).
 Proof.
-  intro H. destruct (run_solo fx cfg p c n s) as (A & B & C & _ & F). cbv zeta in *.
-  rewrite H in A, B, C. cbn [fst snd] in A, B, C. auto.
+  intros On H. destruct (run_solo fx fr cfg p c k n s On) as (A & B & C & D & F). cbv zeta in *.
+  rewrite H in A, B, C. cbn [fst snd] in A, B, C. repeat split; try assumption.
+  - exact (f_equal lpc C).
+  - intros q Hq. exact (f_equal lpc (D q Hq)).
 Qed.
 
-Lemma mem_single_ne p r : p <> r -> mem p [r] = false.
+Lemma mem_single_ne (p r : pid) : p <> r -> mem p (@cons pid r (@nil pid)) = false.
 Proof. intro H. cbn. apply not_eq_sym in H. apply Nat.eqb_neq in H. now rewrite H. Qed.
 
 Lemma held_holds s p : pc s p = LHeld -> holds s p.
 Proof. intro H. unfold holds, holdsb. now rewrite H. Qed.
 
+Lemma local_eq_pc s s' p : local_of s' p = local_of s p -> pc s' p = pc s p /\ nlk s' p = nlk s p.
+Proof. intro H. split; [exact (f_equal lpc H) | exact (f_equal lnl H)]. Qed.
+
+Lemma holds_local s s' p : local_of s' p = local_of s p -> holds s p -> holds s' p.
+Proof. intros H Hp. unfold holds, holdsb in *. now rewrite (proj1 (local_eq_pc s s' p H)). Qed.
+
+Definition mk (l : loc) (i n j : nat) : local := {| lpc := l; ltry := i; lnl := n; lcur := j |}.
+
 (* ---- one call of the repaired protocol at a time *)
 
 Section Steps.
 Variable cfg : config.
-Notation nx := (next true cfg).
+Notation nx := (next true true cfg).
 
-Lemma next_mkdir_free fs i p c : nx false fs LMkdir i p c = (true, fs, (LScanX, i)).
+Lemma next_mkdir_free fs i n j p c : nx false fs (mk LMkdir i n j) p c = (true, fs, mk LScanX i n j).
 Proof. reflexivity. Qed.
 
-Lemma next_mkdir_busy_sh fs i p c : kind_of cfg p = Sh -> nx true fs LMkdir i p c = (true, fs, (LExists, i)).
-Proof. intro K. cbn [next]. now rewrite K. Qed.
+Lemma next_mkdir_busy_sh fs i n j p c :
+  kind_of cfg p = Sh -> nx true fs (mk LMkdir i n j) p c = (true, fs, mk LExists i n j).
+Proof. intro K. unfold next, mk, setpc. cbn [lpc ltry lnl lcur]. now rewrite K. Qed.
 
-Lemma next_mkdir_busy_ex fs i p c : kind_of cfg p = Ex -> nx true fs LMkdir i p c = (true, fs, (LListAll, i)).
-Proof. intro K. cbn [next]. now rewrite K. Qed.
+Lemma next_mkdir_busy_ex fs i n j p c :
+  kind_of cfg p = Ex -> nx true fs (mk LMkdir i n j) p c = (true, fs, mk LListAll i n j).
+Proof. intro K. unfold next, mk, setpc. cbn [lpc ltry lnl lcur]. now rewrite K. Qed.
 
-Lemma next_exists_yes fs i p c : nx true fs LExists i p c = (true, fs, (LScanX, i)).
+Lemma next_exists_yes fs i n j p c : nx true fs (mk LExists i n j) p c = (true, fs, mk LScanX i n j).
 Proof. reflexivity. Qed.
 
-Lemma next_listall_root d fs i p c : only_root cfg p fs = true -> nx d fs LListAll i p c = (d, fs, (LScanX, i)).
-Proof. intro H. cbn [next]. now rewrite H. Qed.
+Lemma next_listall_root d fs i n j p c :
+  only_root cfg p fs = true -> nx d fs (mk LListAll i n j) p c = (d, fs, mk LScanX i n j).
+Proof. intro H. unfold next, mk, setpc. cbn [lpc ltry lnl lcur]. now rewrite H. Qed.
 
-Lemma next_scan_none d fs i p c : filter (isEx cfg) fs = [] -> nx d fs LScanX i p c = (d, fs, (LCreate, i)).
-Proof. intro H. cbn [next]. now rewrite H. Qed.
+Lemma next_scan_none d fs i n j p c :
+  filter (isEx cfg) fs = [] -> nx d fs (mk LScanX i n j) p c = (d, fs, mk LCreate i n j).
+Proof. intro H. unfold next, mk, setpc. cbn [lpc ltry lnl lcur]. now rewrite H. Qed.
 
-Lemma next_scan_one d fs i p c q : filter (isEx cfg) fs = [q] -> nx d fs LScanX i p c = (d, fs, (LScanX2, i)).
-Proof. intro H. cbn [next]. now rewrite H. Qed.
+Lemma next_scan_one d fs i n j p c q :
+  filter (isEx cfg) fs = [q] -> nx d fs (mk LScanX i n j) p c = (d, fs, mk LScanX2 i n j).
+Proof. intro H. unfold next, mk, setpc. cbn [lpc ltry lnl lcur]. now rewrite H. Qed.
 
-Lemma next_scan2_root d fs i p q :
-  filter (isEx cfg) fs = [q] -> is_root cfg p q = true -> nx d fs LScanX2 i p 0 = (d, fs, (LCreate, i)).
-Proof. intros H R. cbn [next]. rewrite H. unfold pick. cbn. now rewrite R. Qed.
+Lemma next_scan2_root d fs i n j p q :
+  filter (isEx cfg) fs = [q] -> is_root cfg p q = true ->
+  nx d fs (mk LScanX2 i n j) p 0 = (d, fs, mk LCreate i n j).
+Proof.
+  intros H R. unfold next, mk, setpc. cbn [lpc ltry lnl lcur]. rewrite H. unfold pick.
+  cbn [length Nat.modulo Nat.divmod fst snd Nat.sub nth_error]. now rewrite R.
+Qed.
 
-Lemma next_create fs i p c : nx true fs LCreate i p c = (true, add p fs, (LValidate, i)).
+Lemma next_create fs i n j p c : nx true fs (mk LCreate i n j) p c = (true, add p fs, mk LValidate i n j).
 Proof. reflexivity. Qed.
 
-Lemma next_validate_ok d fs i p c : conflict cfg p fs = false -> nx d fs LValidate i p c = (d, fs, (LHeld, i)).
-Proof. intro H. cbn [next]. now rewrite H. Qed.
+(* the second look clears the only stack of the path: takeLocks returns *)
+Lemma next_validate_last d fs i j p c k :
+  path_of cfg p = [k] -> conflict cfg p fs = false ->
+  nx d fs (mk LValidate i 0 j) p c = (d, fs, mk LHeld i 1 j).
+Proof.
+  intros P H. unfold next, mk, setpc, advance. cbn [lpc ltry lnl lcur]. rewrite H, P. reflexivity.
+Qed.
 
 End Steps.
 
 Section Live.
 Variable cfg : config.
 
-(* a process alone on a free stack acquires its lock, whatever its kind, in four steps *)
-Lemma solo_free_acquires s p c :
-  dir s = false -> files s = [] -> pc s p = LMkdir ->
-  let s' := run cfg s (repeat (p, c) 4) in
-  pc s' p = LHeld /\ files s' = [p] /\ dir s' = true /\ (forall q, q <> p -> pc s' q = pc s q).
+Ltac on_k P := apply solo_on_S; [rewrite P; reflexivity|].
+
+(* from the scan onwards, when no exclusive lock is in sight and the second look finds no conflict *)
+Lemma scan_to_held p c k fs i j :
+  path_of cfg p = [k] -> filter (isEx cfg) fs = [] -> conflict cfg p (add p fs) = false ->
+  solo_on true true cfg p k c 3 (true, fs, mk LScanX i 0 j) /\
+  solo true true cfg p c 3 (true, fs, mk LScanX i 0 j) = (true, add p fs, mk LHeld i 1 j).
 Proof.
-  intros D F L. cbv zeta. unfold run.
-  assert (HC : conflict cfg p [p] = false).
-  { destruct (kind_of cfg p) eqn:K.
+  intros P FX HC. split.
+  - on_k P. rewrite next_scan_none by assumption. on_k P. rewrite next_create. on_k P. exact I.
+  - rewrite solo_S, next_scan_none by assumption. rewrite solo_S, next_create.
+    rewrite solo_S, (next_validate_last cfg true (add p fs) i j p c k P HC). apply solo_0.
+Qed.
+
+(* a process alone on a free stack acquires its lock, whatever its kind, in four steps *)
+Lemma solo_free_acquires s p c k :
+  path_of cfg p = [k] -> dir s k = false -> files s k = [] -> pc s p = LMkdir -> nlk s p = 0 ->
+  let s' := run cfg s (repeat (p, c) 4) in
+  pc s' p = LHeld /\ files s' k = [p] /\ dir s' k = true /\ (forall q, q <> p -> pc s' q = pc s q).
+Proof.
+  intros P D F L N0. cbv zeta. unfold run.
+  assert (HC : conflict cfg p (add p []) = false).
+  { change (add p []) with [p]. destruct (kind_of cfg p) eqn:K.
     - apply conflict_false_sh; [assumption|]. intros q [<-|[]]. now left.
     - apply conflict_false_ex; [assumption|]. intros q [<-|[]]. now left. }
-  assert (E : solo true cfg p c 4 (dir s, files s, (pc s p, tries s p)) = (true, [p], (LHeld, tries s p))).
-  { rewrite D, F, L.
-    rewrite solo_S, next_mkdir_free.
-    rewrite solo_S, next_scan_none by reflexivity.
-    rewrite solo_S, next_create. change (add p []) with [p].
-    rewrite solo_S, next_validate_ok by assumption.
-    apply solo_0. }
-  destruct (run_solo_eq true cfg p c 4 s _ _ _ _ E) as (A & B & C & O). auto.
+  destruct (scan_to_held p c k [] (tries s p) (cur s p) P eq_refl HC) as [On E].
+  assert (LO : local_of s p = mk LMkdir (tries s p) 0 (cur s p)).
+  { unfold local_of, mk. now rewrite L, N0. }
+  assert (On4 : solo_on true true cfg p k c 4 (dir s k, files s k, local_of s p)).
+  { rewrite D, F, LO. on_k P. rewrite next_mkdir_free. exact On. }
+  assert (E4 : solo true true cfg p c 4 (dir s k, files s k, local_of s p)
+               = (true, [p], mk LHeld (tries s p) 1 (cur s p))).
+  { rewrite D, F, LO. rewrite solo_S, next_mkdir_free. exact E. }
+  destruct (run_solo_eq true true cfg p c k 4 s _ _ _ On4 E4) as (A & B & C & _ & O).
+  repeat split; assumption.
 Qed.
 
 (* a reader joins whatever readers are there: no exclusive lock file in sight *)
-Lemma shared_joins s q c :
-  I0 s -> kind_of cfg q = Sh -> (forall x, In x (files s) -> kind_of cfg x = Sh) -> pc s q = LMkdir ->
+Lemma shared_joins s q c k :
+  path_of cfg q = [k] -> kind_of cfg q = Sh -> (forall x, In x (files s k) -> kind_of cfg x = Sh) ->
+  pc s q = LMkdir -> nlk s q = 0 ->
   exists n, let s' := run cfg s (repeat (q, c) n) in
-    pc s' q = LHeld /\ (forall r, r <> q -> pc s' r = pc s r) /\
-    (forall x, In x (files s') -> kind_of cfg x = Sh) /\ I0 s'.
+    pc s' q = LHeld /\ (forall r, r <> q -> local_of s' r = local_of s r) /\
+    (forall x, In x (files s' k) -> kind_of cfg x = Sh).
 Proof.
-  intros H0 K A L.
-  assert (FX : filter (isEx cfg) (files s) = []).
-  { destruct (filter (isEx cfg) (files s)) as [|x r] eqn:E; [reflexivity|]. exfalso.
-    assert (Hx : In x (filter (isEx cfg) (files s))) by (rewrite E; now left).
+  intros P K A L N0.
+  assert (FX : filter (isEx cfg) (files s k) = []).
+  { destruct (filter (isEx cfg) (files s k)) as [|x r] eqn:E; [reflexivity|]. exfalso.
+    assert (Hx : In x (filter (isEx cfg) (files s k))) by (rewrite E; now left).
     apply filter_In in Hx. destruct Hx as [Hin Hx]. unfold isEx in Hx. rewrite (A x Hin) in Hx. discriminate. }
-  assert (A' : forall x, In x (add q (files s)) -> kind_of cfg x = Sh).
+  assert (A' : forall x, In x (add q (files s k)) -> kind_of cfg x = Sh).
   { intros x Hx. apply in_add in Hx. destruct Hx as [->|Hx]; auto. }
-  assert (HC : conflict cfg q (add q (files s)) = false).
+  assert (HC : conflict cfg q (add q (files s k)) = false).
   { apply conflict_false_sh; [assumption|]. intros x Hx. right. right. now apply A'. }
-  (* from the scan onwards the two cases coincide *)
-  assert (T : forall i, solo true cfg q c 3 (true, files s, (LScanX, i)) = (true, add q (files s), (LHeld, i))).
-  { intro i. rewrite solo_S, next_scan_none by assumption.
-    rewrite solo_S, next_create. rewrite solo_S, next_validate_ok by assumption. apply solo_0. }
-  assert (G : exists n, solo true cfg q c n (dir s, files s, (pc s q, tries s q))
-                        = (true, add q (files s), (LHeld, tries s q))).
-  { rewrite L. destruct (dir s) eqn:D.
-    - exists 5. rewrite solo_S, next_mkdir_busy_sh by assumption. rewrite solo_S, next_exists_yes. apply T.
-    - exists 4. rewrite solo_S, next_mkdir_free. apply T. }
-  destruct G as [n G]. exists n. cbv zeta. unfold run.
-  destruct (run_solo_eq true cfg q c n s _ _ _ _ G) as (R1 & R2 & R3 & R5).
-  assert (H0' : I0 (run_gen true cfg s (repeat (q, c) n))).
-  { intros x Hx. exact R1. }
-  repeat split; try assumption.
-  rewrite R2. assumption.
+  destruct (scan_to_held q c k (files s k) (tries s q) (cur s q) P FX HC) as [On E].
+  assert (LO : local_of s q = mk LMkdir (tries s q) 0 (cur s q)).
+  { unfold local_of, mk. now rewrite L, N0. }
+  assert (G : exists n, solo_on true true cfg q k c n (dir s k, files s k, local_of s q) /\
+                        solo true true cfg q c n (dir s k, files s k, local_of s q)
+                        = (true, add q (files s k), mk LHeld (tries s q) 1 (cur s q))).
+  { rewrite LO. destruct (dir s k) eqn:D.
+    - exists 5. split.
+      + on_k P. rewrite next_mkdir_busy_sh by assumption. on_k P. rewrite next_exists_yes. exact On.
+      + rewrite solo_S, next_mkdir_busy_sh by assumption. rewrite solo_S, next_exists_yes. exact E.
+    - exists 4. split.
+      + on_k P. rewrite next_mkdir_free. exact On.
+      + rewrite solo_S, next_mkdir_free. exact E. }
+  destruct G as (n & On' & G). exists n. cbv zeta. unfold run.
+  destruct (run_solo_eq true true cfg q c k n s _ _ _ On' G) as (R1 & R2 & R3 & R5 & _).
+  repeat split.
+  - exact R3.
+  - assumption.
+  - rewrite R2. assumption.
 Qed.
 
-(* any number of readers hold together *)
-Lemma readers_share_proof n :
-  (forall i, i < n -> kind_of cfg i = Sh) ->
+(* any number of readers of one stack hold together *)
+Lemma readers_share_proof k n :
+  (forall i, i < n -> kind_of cfg i = Sh /\ path_of cfg i = [k]) ->
   exists s, reachable cfg s /\ (forall i, i < n -> holds s i) /\
-    (forall i, n <= i -> pc s i = LMkdir) /\ (forall x, In x (files s) -> kind_of cfg x = Sh) /\ I0 s.
+    (forall i, n <= i -> pc s i = LMkdir /\ nlk s i = 0) /\ (forall x, In x (files s k) -> kind_of cfg x = Sh).
 Proof.
   induction n as [|n IH]; intro K.
   - exists init. repeat split.
     + constructor.
     + intros i Hi. lia.
     + intros x [].
-    + intros x [].
-  - destruct IH as (s & R & H & M & A & H0); [intros i Hi; apply K; lia|].
-    destruct (shared_joins s n 0 H0 (K n (Nat.lt_succ_diag_r n)) A (M n (le_n n))) as (k & L & O & A' & H0').
-    cbv zeta in *. exists (run cfg s (repeat (n, 0) k)). repeat split; try assumption.
+  - destruct IH as (s & R & H & M & A); [intros i Hi; apply K; lia|].
+    destruct (K n (Nat.lt_succ_diag_r n)) as [Kn Pn]. destruct (M n (le_n n)) as [Ln Nn].
+    destruct (shared_joins s n 0 k Pn Kn A Ln Nn) as (m & L & O & A').
+    cbv zeta in *. exists (run cfg s (repeat (n, 0) m)). repeat split; try assumption.
     + now apply reachable_run.
     + intros i Hi. destruct (Nat.eq_dec i n) as [Heq|Hne].
       * subst i. apply held_holds. exact L.
-      * assert (Hi' : holds s i) by (apply H; lia). unfold holds, holdsb in *.
-        pose proof (O i Hne) as Oi. cbv beta in Oi. rewrite <- Oi in Hi'. exact Hi'.
-    + intros i Hi. rewrite O by lia. apply M. lia.
+      * apply (holds_local s _ i (O i Hne)). apply H. lia.
+    + assert (Hne : i <> n) by lia. destruct (M i ltac:(lia)) as [M1 _].
+      exact (eq_trans (proj1 (local_eq_pc s _ i (O i Hne))) M1).
+    + assert (Hne : i <> n) by lia. destruct (M i ltac:(lia)) as [_ M2].
+      exact (eq_trans (proj2 (local_eq_pc s _ i (O i Hne))) M2).
 Qed.
 
 (* a child re-enters the lock of the process it inherited EUPS_LOCK_PID from, whatever the two kinds *)
-Lemma reentry_proof s p q :
-  root_of cfg q = Some p -> q <> p -> dir s = true -> files s = [p] -> pc s p = LHeld -> pc s q = LMkdir ->
+Lemma reentry_proof s p q k :
+  path_of cfg q = [k] -> root_of cfg q = Some p -> q <> p -> dir s k = true -> files s k = [p] ->
+  pc s p = LHeld -> pc s q = LMkdir -> nlk s q = 0 ->
   exists n, let s' := run cfg s (repeat (q, 0) n) in
-    pc s' q = LHeld /\ pc s' p = LHeld /\ files s' = [q; p].
+    pc s' q = LHeld /\ pc s' p = LHeld /\ files s' k = [q; p].
 Proof.
-  intros R Hne D F Lp Lq.
+  intros P R Hne D F Lp Lq N0.
   assert (IR : is_root cfg q p = true) by now apply is_root_true.
   assert (OR : only_root cfg q [p] = true) by exact IR.
   assert (HM : add q [p] = [q; p]) by (unfold add; now rewrite (mem_single_ne q p Hne)).
@@ -189,25 +266,47 @@ Proof.
   { destruct (kind_of cfg q) eqn:K.
     - apply conflict_false_sh; [assumption|]. intros x [<-|[<-|[]]]; auto.
     - apply conflict_false_ex; [assumption|]. intros x [<-|[<-|[]]]; auto. }
+  set (i := tries s q). set (j := cur s q).
   (* from the creation of the file onwards *)
-  assert (T : forall i, solo true cfg q 0 2 (true, [p], (LCreate, i)) = (true, [q; p], (LHeld, i))).
-  { intro i. rewrite solo_S, next_create, HM. rewrite solo_S, next_validate_ok by assumption. apply solo_0. }
+  assert (T : solo_on true true cfg q k 0 2 (true, [p], mk LCreate i 0 j) /\
+              solo true true cfg q 0 2 (true, [p], mk LCreate i 0 j) = (true, [q; p], mk LHeld i 1 j)).
+  { split.
+    - on_k P. rewrite next_create. on_k P. exact I.
+    - rewrite solo_S, next_create, HM. rewrite solo_S, (next_validate_last cfg true [q; p] i j q 0 k P HC).
+      apply solo_0. }
+  destruct T as [TO T].
   (* the scan sees nothing, or exactly the lock of the parent *)
-  assert (SC : forall i, exists k, solo true cfg q 0 k (true, [p], (LScanX, i)) = (true, [q; p], (LHeld, i))).
-  { intro i. destruct (isEx cfg p) eqn:X.
+  assert (SC : exists m, solo_on true true cfg q k 0 m (true, [p], mk LScanX i 0 j) /\
+                         solo true true cfg q 0 m (true, [p], mk LScanX i 0 j) = (true, [q; p], mk LHeld i 1 j)).
+  { destruct (isEx cfg p) eqn:X.
     - assert (FX : filter (isEx cfg) [p] = [p]) by (cbn [filter]; now rewrite X).
-      exists 4. rewrite solo_S, (next_scan_one cfg true [p] i q 0 p FX).
-      rewrite solo_S, (next_scan2_root cfg true [p] i q p FX IR). apply T.
+      exists 4. split.
+      + on_k P. rewrite (next_scan_one cfg true [p] i 0 j q 0 p FX).
+        on_k P. rewrite (next_scan2_root cfg true [p] i 0 j q p FX IR). exact TO.
+      + rewrite solo_S, (next_scan_one cfg true [p] i 0 j q 0 p FX).
+        rewrite solo_S, (next_scan2_root cfg true [p] i 0 j q p FX IR). exact T.
     - assert (FX : filter (isEx cfg) [p] = []) by (cbn [filter]; now rewrite X).
-      exists 3. rewrite solo_S, next_scan_none by assumption. apply T. }
-  assert (G : exists n, solo true cfg q 0 n (dir s, files s, (pc s q, tries s q)) = (true, [q; p], (LHeld, tries s q))).
-  { rewrite D, F, Lq. destruct (SC (tries s q)) as [k Hk]. exists (S (S k)).
-    destruct (kind_of cfg q) eqn:K.
-    - rewrite solo_S, next_mkdir_busy_sh by assumption. rewrite solo_S, next_exists_yes. exact Hk.
-    - rewrite solo_S, next_mkdir_busy_ex by assumption. rewrite solo_S, next_listall_root by assumption. exact Hk. }
-  destruct G as [n G]. exists n. cbv zeta. unfold run.
-  destruct (run_solo_eq true cfg q 0 n s _ _ _ _ G) as (R1 & R2 & R3 & R5).
-  split; [exact R3 | split; [exact (eq_trans (R5 p (not_eq_sym Hne)) Lp) | exact R2]].
+      exists 3. split.
+      + on_k P. rewrite next_scan_none by assumption. exact TO.
+      + rewrite solo_S, next_scan_none by assumption. exact T. }
+  destruct SC as (m & SO & SC).
+  assert (LO : local_of s q = mk LMkdir i 0 j) by (unfold local_of, mk, i, j; now rewrite Lq, N0).
+  assert (G : solo_on true true cfg q k 0 (S (S m)) (dir s k, files s k, local_of s q) /\
+              solo true true cfg q 0 (S (S m)) (dir s k, files s k, local_of s q) = (true, [q; p], mk LHeld i 1 j)).
+  { rewrite D, F, LO. destruct (kind_of cfg q) eqn:K.
+    - split.
+      + on_k P. rewrite next_mkdir_busy_sh by assumption. on_k P. rewrite next_exists_yes. exact SO.
+      + rewrite solo_S, next_mkdir_busy_sh by assumption. rewrite solo_S, next_exists_yes. exact SC.
+    - split.
+      + on_k P. rewrite next_mkdir_busy_ex by assumption. on_k P. rewrite next_listall_root by assumption. exact SO.
+      + rewrite solo_S, next_mkdir_busy_ex by assumption. rewrite solo_S, next_listall_root by assumption.
+        exact SC. }
+  destruct G as [GO G]. exists (S (S m)). cbv zeta. unfold run.
+  destruct (run_solo_eq true true cfg q 0 k (S (S m)) s _ _ _ GO G) as (R1 & R2 & R3 & _ & R5).
+  repeat split.
+  - exact R3.
+  - exact (eq_trans (R5 p (not_eq_sym Hne)) Lp).
+  - exact R2.
 Qed.
 
 End Live.
